@@ -59,6 +59,30 @@ fn case(c: &Case, rec: &mut Rec) {
         }
     }
     let (Ok(b), Ok(d)) = (&b, &d) else { return };
+    // solver options: the pair is (inner T/p loop, outer loop). The outer options decide when the calculation is converged:
+    // with default outer options the answer is the default answer whatever the inner loop is told (or the call fails);
+    // with a loose outer tolerance the answer is within that tolerance of it
+    {
+        use feos_core::SolverOptions;
+        let so = |tol: Option<f64>, it: Option<usize>| SolverOptions { tol, max_iter: it, ..Default::default() };
+        let dev = |a: &Vle, r: &Vle| -> f64 {
+            let dp = ((a.vapor().pressure(Contributions::Total) - r.vapor().pressure(Contributions::Total)) / r.vapor().pressure(Contributions::Total)).into_value().abs();
+            let dx = (&a.vapor().molefracs - &r.vapor().molefracs).iter().chain((&a.liquid().molefracs - &r.liquid().molefracs).iter()).fold(0.0f64, |m, v| m.max(v.abs()));
+            dp.max(dx)
+        };
+        for (oname, opts, band) in [("inner_tol=1e-2", (so(Some(1e-2), None), so(None, None)), 1e-7), ("inner_tol=1e-4", (so(Some(1e-4), None), so(None, None)), 1e-7), ("inner_iter=1", (so(None, Some(1)), so(None, None)), 1e-7), ("outer_tol=1e-5", (so(None, None), so(Some(1e-5), None)), 1e-3)] {
+            for (name, reference, bubble) in [("bubble", b, true), ("dew", d, false)] {
+                let r = if bubble { PhaseEquilibrium::bubble_point(eos, t, &xs, None, None, opts) } else { PhaseEquilibrium::dew_point(eos, t, &xs, None, None, opts) };
+                match r {
+                    Ok(g) => {
+                        let e = dev(&g, reference);
+                        rec.check("options_respected", &format!("{name}|{oname}"), e / band, true, || format!("{name} point with options {oname} deviates from the default-option result by {e:e} (allowed {band:e})"));
+                    }
+                    Err(_) => rec.skip("bubble/dew point with non-default options fails (conditional)"),
+                }
+            }
+        }
+    }
     let pb = b.vapor().pressure(Contributions::Total);
     let pd = d.vapor().pressure(Contributions::Total);
     rec.require("p_bub>=p_dew", "", pb >= pd * (1.0 - 1e-9), || format!("bubble pressure {pb} below dew pressure {pd}"));
